@@ -104,7 +104,9 @@ func c01Run(ci any) Result {
 	rServe(e, &cur, c.Req)
 	res := Result{
 		Ops: wJoin(rTableWire(c.Routes), wStr(c.Req.Method), wStr(c.Req.Path), wInt(rMaxParam(c.Routes))),
-		Obs: cur.wire() + " // " + c01SpecWire(cur),
+		// "TI1 RS1": the tree the model builds for this table must satisfy the invariant of the refinement
+		// theorem and represent exactly the registered entries (checked by the driver for every table)
+		Obs: cur.wire() + " // " + c01SpecWire(cur) + " // TI1 RS1",
 	}
 	if !rHasTextAfterStar(c.Routes) {
 		res.Oracle = c01Oracle(c.Routes, c.Req, cur)
